@@ -182,3 +182,57 @@ func runStepOrder(r *engine.Run) {
 	r.Bound("arguments", "positions and separator as objects with logging valueOf/toString; callback present / missing / not callable")
 	r.Bound("calls", fmt.Sprint(len(calls)))
 }
+
+// ---- primitives: every method on primitive this values (ToObject in step 1; reverse and sort return that object) ----
+
+func runPrimitives(r *engine.Run) {
+	im := objdrv.New(prelude8)
+	prims := []struct {
+		id, js string
+		v      om.Value
+		elems  []V
+	}{
+		{"true", "true", om.TrueV, nil}, {"1", "1", om.Num(1), nil}, {"''", `""`, om.Str(""), nil}, {"'ab'", `"ab"`, om.Str("ab"), []V{str("a"), str("b")}},
+	}
+	cb, cb4 := V{K: "cb"}, V{K: "cb4"}
+	t := V{K: "bool", B: true}
+	for _, p := range prims {
+		p := p
+		rc := recv{id: "prim(" + p.id + ")", js: "o = " + p.js + ";", elems: p.elems, model: func(w *cw) om.Value { return p.v }}
+		emit := func(m string, script []V, args ...V) {
+			runCase(r, im, callCase{rc: rc, method: m, args: args, script: script})
+		}
+		emit("toString", nil)
+		emit("toLocaleString", nil)
+		emit("concat", nil, num(9))
+		emit("join", nil)
+		emit("join", nil, str("-"))
+		emit("pop", nil)
+		emit("push", nil)
+		emit("push", nil, num(9))
+		emit("reverse", nil)
+		emit("shift", nil)
+		emit("unshift", nil)
+		emit("unshift", nil, num(9))
+		emit("slice", nil)
+		emit("slice", nil, num(0), num(1))
+		emit("splice", nil)
+		emit("splice", nil, num(0), num(1))
+		emit("indexOf", nil, str("b"))
+		emit("lastIndexOf", nil, str("b"))
+		for _, m := range []string{"every", "some", "forEach", "map", "filter"} {
+			emit(m, []V{t, t}, cb)
+			emit(m, nil)
+		}
+		for _, m := range []string{"reduce", "reduceRight"} {
+			emit(m, []V{str("r0")}, cb4)
+			emit(m, []V{str("r0"), str("r1")}, cb4, str("I"))
+		}
+		if len(p.elems) == 0 {
+			// no element: no [[Put]]/[[Delete]] sequence to be implementation-defined about
+			emit("sort", nil)
+			emit("sort", nil, vU)
+		}
+	}
+	r.Bound("primitive_receivers", "true, 1, \"\", \"ab\"")
+}
